@@ -35,6 +35,8 @@ def _grid(shape, rng, cap, horizon, opts):
         names.append(("cdur", i))
         axes.append(opts.get("scdur", [0]))
         names.append(("scdur", i))
+        axes.append(opts.get("cout", ["cancelled"]))
+        names.append(("cout", i))
         axes.append(opts.get("dur", [-2]))
         names.append(("dur", i))
     for i in scheds:
@@ -68,7 +70,7 @@ def _grid(shape, rng, cap, horizon, opts):
 
     def build(choice):
         kw = {key: [None] * n for key in
-              ("crit", "forever", "sdur", "cdur", "scdur", "dur", "win", "tmo", "stmo")}
+              ("crit", "forever", "sdur", "cdur", "scdur", "cout", "dur", "win", "tmo", "stmo")}
         pure = False
         ucancel = -1
         preshut = False
@@ -97,7 +99,7 @@ def _grid(shape, rng, cap, horizon, opts):
                 kw[name][i] = val
         for i in range(n):
             for key, dflt in (("crit", False), ("forever", False), ("sdur", 0),
-                              ("cdur", 0), ("scdur", 0), ("dur", 0), ("win", 0), ("tmo", -1),
+                              ("cdur", 0), ("scdur", 0), ("cout", "cancelled"), ("dur", 0), ("win", 0), ("tmo", -1),
                               ("stmo", 1)):
                 if kw[key][i] is None:
                     kw[key][i] = dflt
@@ -163,7 +165,7 @@ def family(name, tier, seed):
                  jobflags=[(False, False), (True, False), (False, True)],
                  schedflags=[(False, False), (True, False), (False, True), (True, True)],
                  pure=[False, True], ucancel=[-1, -1, 1, 2], preshut=[False, False, False, True],
-                 xshut=[False, True],
+                 xshut=[False, True], cout=["cancelled", "cancelled", "exc"],
                  cwait=[None, None, "pair"]))
         desc = "6 nested shapes (depth <= 3) x flags x windows x timeouts x handler/clean-up durations"
     elif name == "shutdown":
